@@ -59,7 +59,7 @@ fn main() {
             let rp: Replay = serde_json::from_str(&std::fs::read_to_string(path).expect("read replay")).expect("parse replay");
             match rp.engine.as_str() {
                 "l1" => run1::replay(&rp, path),
-                "l2" => run2::replay(&rp, path),
+                "l2" => run2::replay(&rp, path, args.iter().any(|a| a == "--quiet")),
                 e => {
                     eprintln!("unknown engine {e}");
                     2
